@@ -101,7 +101,11 @@ def iter_order(case, rg):
         ch = rg.calls("choice")
         if len(ch) != 1:
             raise Violation("expected exactly one rng.choice call, saw %d" % len(ch))
-        return np.asarray(ch[0]["out"])
+        idx = np.asarray(ch[0]["out"])
+        if len(set(idx.tolist())) != len(idx) or (len(idx) and (idx.min() < 0 or idx.max() >= n)):
+            raise Violation("shuffled evaluation order is not a repeat-free selection of library rows (a prior sample "
+                            "would be evaluated twice)", order=idx[:20], library_size=n)
+        return idx
     return np.arange(m)
 
 
